@@ -1,4 +1,7 @@
 let () =
   match Sys.argv with
   | [| _; "plan" |] -> Plan_mode.run ()
+  | [| _; "trigger" |] -> Trigger_mode.run ()
+  | [| _; "shard" |] -> Shard_mode.run ()
+  | [| _; "grow" |] -> Grow_mode.run ()
   | _ -> prerr_endline "usage: kmodel <mode>"; exit 2
